@@ -33,7 +33,7 @@ CLAIMS = {
                 text='Component-level proof: the insertion point splits a strictly ordered list at the key for lists of any length (<= 1e8) and all index values; sortedness/duplicate-freedom preserved by insert.',
                 design_ref='DESIGN.md 4 C12', note=_NOTE, technique='CBMC function+loop contracts with ghost-witness instantiation (unbounded)'),
     'C13': dict(kernel='whitespace-stripping decision (first matching tester decides)',
-                text='Component-level proof of the strip decision kernel.', design_ref='DESIGN.md 4 C13', note=_NOTE,
+                text='Component-level proof of the strip/preserve DECISION only: declarations stay ordered by priority with the later one first among equals, and the first matching declaration decides. That every observation path consults the decision is not proved.', design_ref='DESIGN.md 4 C13', note=_NOTE,
                 technique='CBMC function+loop contracts'),
     'C16': dict(kernel='NodeSorter::NodeSortKeyCompare::compare and the number-key cache',
                 text='Component-level proof that the comparator handed to std::stable_sort is the lexicographic key order of XSLT 10 and a strict weak order.',
